@@ -3,11 +3,13 @@ From Flocq Require Import Core Relative Plus_error BinarySingleNaN.
 Require Import Blots.Num Blots.UnitsBase Blots.gen.UnitsTable Blots.Units Blots.proofs.UnitsLaws Blots.proofs.UnitsFloat Blots.proofs.UnitsFloat2.
 Import ListNotations.
 Open Scope R_scope.
-Definition pchk K ua ub :=  if same_cat ua ub && is_lr ua && is_lr ub
-    then finb (cnum ua) && finb (cnum ub) && tab_ok ua ub (- K, K)%Z else true.
-Lemma t0 : forallb (fun ua => forallb (pchk Kv ua) all_units) all_units = true.
-Proof. exact table_lr_pairs_ok. Time Qed.
-Lemma t1 ua : In ua all_units -> forallb (pchk Kv ua) all_units = true.
-Proof.
-  intros Ia. exact (proj1 (forallb_forall (fun ua => forallb (pchk Kv ua) all_units) all_units) t0 ua Ia).
-Time Qed.
+Lemma u53_val : u53 = / 9007199254740992.
+Proof. unfold u53. simpl bpow. Show. lra. Qed.
+Definition n32 := num_of_bits (l_bits lit_32).
+Lemma n32_val : Rv n32 = 32.
+Proof. unfold Rv, n32. vm_compute num_of_bits. Show. unfold SF2R, F2R. simpl. Show. lra. Qed.
+Definition n273 := num_of_bits (l_bits lit_273_15).
+Lemma n273_val : Rv n273 = 4805297063480934 / 17592186044416.
+Proof. unfold Rv, n273. vm_compute num_of_bits. unfold SF2R, F2R. simpl. Show. lra. Qed.
+Lemma isB_n32 : isB n32 32.
+Proof. rewrite <- n32_val. apply isB_of_valid; reflexivity. Qed.
